@@ -10,6 +10,9 @@ def answer (toks : List String) : String :=
   | ["diagline", n, r] => showNats (LineDist.diagline (boolMat r) n.toNat!)
   | ["vertline_mv", n, r, m] => showNats (LineDist.vertlineMV (boolMat r) (bools m) n.toNat!)
   | ["diagline_mv", n, r, m] => showNats (LineDist.diaglineMV (boolMat r) (bools m) n.toNat!)
+  | ["scalars", lmin, h] =>
+      let s := LineDist.scalars lmin.toNat! (nats h)
+      s!"{s.ratioNum} {s.ratioDen} {s.avgDen} {s.maxLen} {showNats s.weights}"
   | _ => "bad-request"
 
 def main : IO Unit := runDriver answer
